@@ -481,14 +481,15 @@ def fresh_maps_and_second_bindings(rec, rng):
             rng.shuffle(order)
         m = Map()
         arrived = []
-        for i in order[:3]:
+        ahead = 0 if variant < 2 else 3  # with 0 the failing factory is the only thing the map was ever given
+        for i in order[:ahead]:
             m.add(good[i]())
             arrived.append(i)
         try:
-            m.add(Submount("", [good[i]() for i in order[3:]] + [Rule("/x/<nosuchconverter:y>", endpoint="x")]))
+            m.add(Submount("", [good[i]() for i in order[ahead:]] + [Rule("/x/<nosuchconverter:y>", endpoint="x")]))
             rec.observe("faulty_factory_did_not_fail")
         except LookupError:
-            arrived += order[3:]
+            arrived += order[ahead:]
         ref = Map([good[i]() for i in arrived]).bind("example.com", "/")
         ad = m.bind("example.com", "/")
         rec.case()
